@@ -14,7 +14,7 @@ import (
 func init() {
 	register(&PropSpec{
 		ID:       "C13",
-		Patterns: []string{"./pkg/mtls", "./pkg/server"},
+		Patterns: []string{"./pkg/mtls", "./pkg/mtls/extensions/sni", "./pkg/mtls/crypto/tls", "./pkg/server"},
 		Explanation: "(R1) decision table read off the CFG of defaultConfigHooks.GetClientAuth over (RequireClientCert, VerifyClient): (T,T)->RequireAndVerifyClientCert, (F,T)->VerifyClientCertIfGiven, (T,F)->RequestClientCert, (F,F)->NoClientCert, and SetServerConfig stores exactly that result into ClientAuth on every path that publishes a server context; " +
 			"(R2) verification is never silently off: every store of true into tls.Config.InsecureSkipVerify (outside the forked crypto) is control-dependent on cfg.InsecureSkip or on a non-nil custom VerifyPeerCertificate installed in the same function; " +
 			"(R3) CA provenance: both RootCAs and ClientCAs receive the pool returned by hooks.GetX509Pool(secret.Validation) and its error is returned; (R4) plaintext only via the inspector: in serverContextManager.Conn every return of something that is not a *TLSConn is control-dependent on not-a-TCP-conn, TLS disabled, or inspector mode with a first byte other than 0x16; " +
@@ -24,6 +24,8 @@ func init() {
 }
 
 func runC13(c *Ctx) {
+	c.Rule("C13.R12", "certificate validity is checked against a clock read made during the handshake", 3)
+	defer c13ClockPerHandshake(c)
 	c.Rule("C13.R11", "no address of a (go 1.18) loop variable escapes its iteration in pkg/mtls", 1)
 	defer loopVarEscapes(c, "C13.R11", []string{"pkg/mtls"})
 	c.Rule("C13.R10", "frozen lockset: an SDS provider's secret and its set of TLS contexts are only touched under the provider mutex", 8)
